@@ -884,6 +884,63 @@ func runC07(res *Result, tier string, seed int64, replay string) {
 			res.Sample(map[string]string{"class": cl.name, "a": short(cl.a, 200), "b": short(cl.b, 200)})
 		}
 	}
+	// ---- one option LIST shared by concurrent callers (built once with spare capacity and passed with the spread form, as a
+	// service does): what a compilation appends for itself must not land in the caller's backing array.  Documents with and
+	// without offending attributes; every result (HTML and error) against the same call made alone
+	if replay == "" {
+		var docs []string
+		for i := 0; i < 8; i++ {
+			bogus := ""
+			if i%2 == 1 {
+				bogus = fmt.Sprintf(` bogus-%d="1" other-%d="2"`, i, i)
+			}
+			docs = append(docs, fmt.Sprintf(`<mjml><mj-body><mj-section><mj-column><mj-text%s>shared options %d</mj-text></mj-column></mj-section></mj-body></mjml>`, bogus, i))
+		}
+		for vi, mk := range []func() []mjml.RenderOption{
+			func() []mjml.RenderOption { return make([]mjml.RenderOption, 0, 4) },
+			func() []mjml.RenderOption { return append(make([]mjml.RenderOption, 0, 8), mjml.WithCache()) },
+			func() []mjml.RenderOption { return append(make([]mjml.RenderOption, 0, 3), mjml.WithDebugTags(false)) },
+		} {
+			shared := mk()
+			var solos []exp
+			for _, d := range docs {
+				h, err := mjml.Render(d, shared...)
+				e := ""
+				if err != nil {
+					e = err.Error()
+				}
+				solos = append(solos, exp{alphaIDs(h), e})
+			}
+			var bad atomic.Value
+			var wg sync.WaitGroup
+			reps := 300 * rounds / 8
+			for g := range docs {
+				wg.Add(1)
+				go func(g int) {
+					defer wg.Done()
+					for k := 0; k < reps && bad.Load() == nil; k++ {
+						h, err := mjml.Render(docs[g], shared...)
+						e := ""
+						if err != nil {
+							e = err.Error()
+						}
+						if alphaIDs(h) != solos[g].html || e != solos[g].err {
+							bad.Store(fmt.Sprintf("document %d compiled with a shared option list next to others: error %q, alone %q (HTML equal: %v)", g, short(e, 120), short(solos[g].err, 120), alphaIDs(h) == solos[g].html))
+						}
+						if k%16 == 0 {
+							runtime.Gosched()
+						}
+					}
+				}(g)
+			}
+			wg.Wait()
+			res.Case(fmt.Sprintf("shared-option-list/%d", vi), true)
+			res.Count("class=shared-option-list")
+			if b := bad.Load(); b != nil {
+				res.Violate(Violation{Sig: "interference|shared-option-list", Kind: "schedule", What: fmt.Sprint(b), Input: map[string]interface{}{"variant": vi, "docs": docs}})
+			}
+		}
+	}
 	mjml.StopASTCacheCleanup()
 	for _, rr := range raceReports() {
 		res.Count("race-reports")
